@@ -65,3 +65,133 @@ Definition bytes_bad (cs : list (string * string * option tv * option tv * list 
                           | None => [(i, 0)]
                           end
                       end) (index_from 0 cs).
+
+(* ------------------------------------------------------------------ rendering and layout detection *)
+From S4.Model Require Import RecordRender LayoutDetect.
+
+Fixpoint listB_eqb (a b : list bytes) : bool :=
+  match a, b with
+  | [], [] => true
+  | x :: a', y :: b' => beqb x y && listB_eqb a' b'
+  | _, _ => false
+  end.
+
+(* B, FixedStruct::as_bytes (in-process, buffer of print_buffer_cap bytes) vs the model on the same
+   entry bytes: case = (layout name, entry bytes in hex, text written by the implementation in hex).
+   Codes: 0 = no render program for the name; 1 = the sequential model (writes through the cursor)
+   differs from the implementation; 2 = the model fails (buffer full); 3 = the declarative text
+   (concatenation of the items' texts) differs; 4 = the entry's values are clean but reading the
+   line back does not return the items' texts. *)
+Definition render_bad (cs : list (string * string * string)) : list (N * N) :=
+  flat_map (fun ic => let '(i, (name, hexe, hext)) := ic in
+     match assoc (s2b name) fixedstruct_render with
+     | None => [(i, 0)]
+     | Some items =>
+         let e := unhex hexe in
+         match as_bytes f32_int_text print_buffer_cap items as_bytes_tail e with
+         | RFail _ => [(i, 2)]
+         | ROk t =>
+             if negb (beqb t (unhex hext)) then [(i, 1)]
+             else if negb (beqb t (render f32_int_text items as_bytes_tail e)) then [(i, 3)]
+             else if items_clean f32_int_text items as_bytes_tail e then
+                    match parse_items items as_bytes_tail t with
+                    | Some l => if listB_eqb l (var_texts f32_int_text items e) then [] else [(i, 4)]
+                    | None => [(i, 4)]
+                    end
+                  else []
+         end
+     end) (index_from 0 cs).
+
+(* how many of the cases have clean values (evidence: the parse theorem's hypothesis is exercised) *)
+Definition render_clean_count (cs : list (string * string * string)) : N :=
+  N.of_nat (length (filter (fun c => let '(name, hexe, _) := c in
+     match assoc (s2b name) fixedstruct_render with
+     | Some items => items_clean f32_int_text items as_bytes_tail (unhex hexe)
+     | None => false end) cs)).
+
+(* B, FixedStruct::score_fixedstruct after buffer_to_fixedstructptr vs the model: case = (layout
+   name, bonus, entry hex, implementation: Some score | None = buffer_to_fixedstructptr refused).
+   Codes: 0 = no program; 1 = scores differ; 2 = convertibility differs; 5 = the model's CStr read
+   leaves the struct (not compared: the implementation's value depends on the heap). *)
+Definition score_bad (cs : list (string * Z * string * option Z)) : list (N * N) :=
+  flat_map (fun ic => let '(i, (name, bonus, hexe, impl)) := ic in
+     match assoc (s2b name) fixedstruct_score with
+     | None => [(i, 0)]
+     | Some items =>
+         let e := unhex hexe in
+         if convertible e then
+           match impl with
+           | None => [(i, 2)]
+           | Some s => match score_entry [] items bonus e with
+                       | None => [(i, 5)]
+                       | Some m => if (m =? s)%Z then [] else [(i, 1)]
+                       end
+           end
+         else match impl with None => [] | Some _ => [(i, 2)] end
+     end) (index_from 0 cs).
+
+(* B, layout detection: case = (file kind 0..5, file bytes as hex chunks, per-candidate high scores
+   of the implementation in the model's candidate order (None = FileErrNoHighScore), the layout
+   FixedStructReader::new chose ("" = none) and its high score).
+   Codes: 1 = candidate sets differ in length; 2 = the high score of a candidate whose reads all
+   stay inside the struct differs; 3 = another layout (or none) chosen / a different high score
+   than the model's first maximum in iteration order; 4 = (only when the code does not fix the
+   order) tie: the chosen layout is not one of the tied maxima;
+   0 = some candidate's read leaves the struct, the choice is not compared (the per-candidate
+   scores of the other candidates are); 10 + k = no disagreement, and k >= 2 candidates tie at the
+   maximal score (the chosen layout is one of them). *)
+Definition file_of (chunks : list string) : bytes := flat_map unhex chunks.
+
+Definition model_cands (kind : N) (file : bytes) : list cand :=
+  filesz_candidates fixedstruct_layouts filesz_bonus filesz_try_all fixedstruct_score score_bonus
+                    kind (N.of_nat (length file)).
+
+Fixpoint scores_agree (m : list (bytes * option Z)) (impl : list (option Z)) : bool :=
+  match m, impl with
+  | [], [] => true
+  | (_, None) :: m', _ :: i' => scores_agree m' i'
+  | (_, Some h) :: m', Some s :: i' => (h =? s)%Z && (0 <? h)%Z && scores_agree m' i'
+  | (_, Some h) :: m', None :: i' => (h =? 0)%Z && scores_agree m' i'
+  | _, _ => false
+  end.
+
+Definition maxima (m : list (bytes * Z)) : list bytes :=
+  let mx := fold_left Z.max (map snd m) 0%Z in
+  if (0 <? mx)%Z then map fst (filter (fun x => (snd x =? mx)%Z) m) else [].
+
+(* the candidate sequence score_file walks: the set of filesz_to_types in ascending discriminant
+   order when the code sorts it (score_file_order_fixed), else in table order (then the order is
+   not determined by the code and a tie is not compared) *)
+Definition model_cands_ordered (kind : N) (file : bytes) : list cand :=
+  if score_file_order_fixed then order_cands candidate_order (model_cands kind file) else model_cands kind file.
+
+Definition detect_code (kind : N) (chunks : list string) (impl_scores : list (option Z))
+           (chosen : string) (chosen_score : Z) : option N :=
+  let file := file_of chunks in
+  let cands := model_cands kind file in
+  let mo := cand_scores_opt no_mem count_found_entries_max cands file in
+  if negb (Nat.eqb (length mo) (length impl_scores)) then Some 1
+  else if negb (scores_agree mo impl_scores) then Some 2
+  else match cand_scores no_mem count_found_entries_max (model_cands_ordered kind file) file with
+       | None => Some 0
+       | Some m =>
+           let '(b, hs) := best_of m None 0%Z in
+           let tied := maxima m in
+           let agree := match b with
+                        | Some n' => beqb (s2b chosen) n' && (hs =? chosen_score)%Z
+                        | None => beqb (s2b chosen) []
+                        end in
+           match tied with
+           | _ :: _ :: _ =>
+               if score_file_order_fixed
+               then (if agree then Some (10 + N.of_nat (length tied)) else Some 3)
+               else (if existsb (beqb (s2b chosen)) tied then Some (10 + N.of_nat (length tied)) else Some 4)
+           | _ => if agree then None else Some 3
+           end
+       end.
+
+Definition detect_bad (cs : list (N * list string * list (option Z) * string * Z)) : list (N * N) :=
+  flat_map (fun ic => let '(i, (kind, chunks, impl_scores, chosen, chosen_score)) := ic in
+     match detect_code kind chunks impl_scores chosen chosen_score with
+     | Some c => [(i, c)] | None => [] end) (index_from 0 cs).
+
